@@ -42,6 +42,7 @@ type AOutcome struct {
 	Violations []HViolation `json:"violations,omitempty"`
 	Strategy   string
 	ZeroCalls  int // zero-allocation measurements taken
+	Gated      int // measurements dropped because a cache was cleared while measuring
 	Cycles     int
 	Footprint  []int `json:"footprint_first_cycles,omitempty"`
 	HeapEarly  uint64
@@ -88,13 +89,17 @@ func genAlloc(seed uint64, index int, tier string) *AScenario {
 	if kr.p(1, 2) {
 		sc.Knobs = genKnobs(kr, true)
 		sc.Knobs.MaxLiterals = 0
+		if sc.Knobs.DFACap != 0 && kr.p(2, 3) {
+			// mostly caches that hold a real working set without being the default size
+			sc.Knobs.DFACap = pick(kr, []int{20000, 65536, 65536, 262144})
+		}
 	}
 	re := parsePattern(sc.Pattern)
 	alpha := patternAlphabet(sc.Pattern)
 	hr := r.fork(3)
 	nh := hr.between(1, 3)
 	for i := 0; i < nh; i++ {
-		sc.Hays = append(sc.Hays, hex.EncodeToString(genHaystack(hr, sc.Pattern, re, alpha, pick(hr, []int{1, 2, 2, 3}))))
+		sc.Hays = append(sc.Hays, hex.EncodeToString(genHaystack(hr, sc.Pattern, re, alpha, pick(hr, []int{1, 2, 2, 3, 3}))))
 	}
 	or := r.fork(4)
 	k := or.between(1, 4)
@@ -107,6 +112,46 @@ func genAlloc(seed uint64, index int, tier string) *AScenario {
 		sc.Reps = pick(or, []int{100, 1000, 4000})
 	}
 	return sc
+}
+
+// totalClears sums the clear counters of every lazy-DFA cache reachable from re;
+// a cache that is (nearly) full counts as one more "clear in progress": with the
+// clear budget exhausted it stays full and every call falls back after a failed
+// insert.
+func totalClears(re *coregex.Regex) int {
+	e := re.VerifEngine()
+	n := 0
+	full := func(c lazyInfo) {
+		n += c.ClearCount
+		if c.Capacity > 0 && (c.MemoryUsage+c.Stride*4+256)*10 >= c.Capacity*9 {
+			n += 1 << 20
+		}
+	}
+	add := func(st *meta.SearchState) {
+		for _, c := range st.VerifInfo().Caches {
+			full(c)
+		}
+	}
+	if st := e.VerifLocalState(); st != nil {
+		add(st)
+	}
+	if p, ok := e.VerifStatePool().(*simrt.Pool); ok {
+		for _, it := range p.Items() {
+			if st, ok := it.(*meta.SearchState); ok {
+				add(st)
+			}
+		}
+	}
+	for _, pp := range e.VerifCachePools() {
+		if p, ok := pp.(*simrt.Pool); ok {
+			for _, it := range p.Items() {
+				if c, ok := it.(interface{ VerifInfo() lazyInfo }); ok {
+					full(c.VerifInfo())
+				}
+			}
+		}
+	}
+	return n
 }
 
 func mallocs() uint64 {
@@ -253,28 +298,49 @@ func runAlloc(sc *AScenario) *AOutcome {
 		}
 	}
 
+	// haystacks on which a single enumeration already takes tens of milliseconds
+	// (quadratic paths on long inputs) are left out: they would eat the batch's
+	// budget and add nothing to what the memory monitors can see
+	slow := make([]bool, len(hb))
+	for i := range hb {
+		t0 := time.Now()
+		re.Count(hb[i], -1)
+		slow[i] = time.Since(t0) > 30*time.Millisecond
+	}
+
 	// I5 zero allocation after warm-up
 	buf := make([][2]int, 0, 1<<16)
 	for _, za := range zeroAPIs {
-		if sc.Knobs.DFACap != 0 || sc.Knobs.MaxClears != 0 {
-			// a cache that cannot hold the working set re-determinizes on every call;
-			// like a dropped pooled object that legitimately costs allocations
-			break
-		}
+
 		if sc.Only != "" && sc.Only != za.name {
 			continue
 		}
 		for i := range hb {
+			if slow[i] {
+				continue
+			}
 			f := func() { za.fn(re, hb[i], hs[i], &buf) }
+			t0 := time.Now()
 			f()
+			if time.Since(t0) > 20*time.Millisecond {
+				continue // a call this slow (quadratic paths on long inputs) would eat the batch's budget
+			}
 			f()
 			f()
 			const runs = 10
+			c0 := totalClears(re)
 			m0 := mallocs()
 			for k := 0; k < runs; k++ {
 				f()
 			}
 			n := (mallocs() - m0) / runs
+			if c1 := totalClears(re); c1 != c0 || c1 >= 1<<20 {
+				// the cache could not hold this call's working set and was cleared while
+				// measuring: re-determinizing legitimately allocates (like a dropped pooled
+				// object), so the measurement says nothing about steady state
+				out.Gated++
+				continue
+			}
 			out.ZeroCalls++
 			if n > 0 {
 				sites := allocSites(f)
@@ -294,9 +360,16 @@ func runAlloc(sc *AScenario) *AOutcome {
 	// I3/I4 plateau while a fixed cycle repeats
 	var fp []int
 	maxEarly := 0
+	plateauStart := time.Now()
 	for c := 0; c < sc.Reps; c++ {
+		if c > 12 && time.Since(plateauStart) > 3*time.Second {
+			sc.Reps = c // slow cycle: stop early, the measurements below use what was executed
+			break
+		}
 		for i := range sc.Cycle {
-			execOp(re, &sc.Cycle[i], hb, hs)
+			if !slow[sc.Cycle[i].H] {
+				execOp(re, &sc.Cycle[i], hb, hs)
+			}
 		}
 		f := footprint(re)
 		if c < 8 {
@@ -337,7 +410,9 @@ func runAlloc(sc *AScenario) *AOutcome {
 func allocBatch(base uint64, from, to int, tier string, budget time.Duration, start time.Time, emit func(any)) {
 	sum := &Summary{Kind: "summary", Engine: "alloc", From: from, To: to, Failures: map[string]int{}, Policies: map[string]int{}, Strategies: map[string]int{},
 		Cells: map[string]int{}, Knobs: map[string]int{}, Probes: map[string]int64{}, Extra: map[string]any{}}
-	zero, cycles := 0, 0
+	zero, cycles, gated := 0, 0, 0
+	var slowest time.Duration
+	slowestIdx := -1
 	for i := from; i < to; i++ {
 		if budget > 0 && time.Since(start) > budget {
 			sum.To = i
@@ -345,13 +420,18 @@ func allocBatch(base uint64, from, to int, tier string, budget time.Duration, st
 		}
 		seed := runSeed(base, i)
 		sc := genAlloc(seed, i, tier)
+		t0 := time.Now()
 		out := runAlloc(sc)
+		if d := time.Since(t0); d > slowest {
+			slowest, slowestIdx = d, i
+		}
 		if out.Class == "compile" {
 			continue
 		}
 		sum.Runs++
 		sum.Strategies[out.Strategy]++
 		zero += out.ZeroCalls
+		gated += out.Gated
 		cycles += out.Cycles
 		if sc.Knobs.hooked() {
 			sum.Knobs["hooked_capacity"]++
@@ -380,7 +460,10 @@ func allocBatch(base uint64, from, to int, tier string, budget time.Duration, st
 			}
 		}
 	}
+	sum.Extra["slowest_scenario_s"] = slowest.Seconds()
+	sum.Extra["slowest_scenario_index"] = slowestIdx
 	sum.Extra["zero_alloc_measurements"] = zero
+	sum.Extra["zero_alloc_gated_cache_cleared"] = gated
 	sum.Extra["plateau_cycles"] = cycles
 	sum.WallS = time.Since(start).Seconds()
 	emit(sum)
